@@ -1,4 +1,5 @@
 mod extract;
+mod ops_config;
 mod ops_graph;
 mod ops_names;
 mod ops_types;
@@ -22,6 +23,7 @@ pub fn exec(op: &str, input: &Value) -> (Value, Value) {
         "name" => ops_names::exec_name(input),
         "fieldAttrs" => ops_names::exec_field_attrs(input),
         "validator" => ops_valid::exec_validator(input),
+        "configSave" => ops_config::exec_config_save(input),
         _ => (input.clone(), json!({"error": format!("unknown op {}", op)})),
     }
 }
@@ -93,6 +95,7 @@ fn main() {
         "fields" => ops_names::run_fields(&mut out, &tier, &mut rng),
         "params" => ops_names::run_params(&mut out, &tier, &mut rng),
         "valid" => ops_valid::run(&mut out, &tier, &mut rng),
+        "config" => ops_config::run(&mut out, &tier, &mut rng),
         _ => {
             eprintln!("unknown group {}", group);
             std::process::exit(2);
